@@ -121,6 +121,8 @@ def rand_mask(rng, h, w):
 
 GEOMS = [[1, 1, 0, 0], [2, 1, 1, -2], [1, 2, -3, 0], [2, 2, 0, 1]]
 KS = [1, 3, 5, 7]
+# histories also use larger integer scales / origins (every coordinate stays an exact half-integer)
+GEOMS_X = GEOMS + [[1024, 3, -7, 6], [3, 5, -6, 10]]
 
 def gen_inputs(tier, rng):
     big = tier == "thorough"
@@ -235,7 +237,7 @@ def hist_inputs(tier, rng):
         for si, sel in enumerate(SEL_NAMES):
             for held in (False, True):
                 for route in (EDIT_ROUTES[1:] if big else [EDIT_ROUTES[1 + (si + held + rep) % 7], "item"]):
-                    yield _hist(rng.choice(GEOMS), [["new", rng.choice(NEW_ROUTES[:5]), _rows(rng)], ["touch", 0, [sel], held],
+                    yield _hist(rng.choice(GEOMS_X), [["new", rng.choice(NEW_ROUTES[:5]), _rows(rng)], ["touch", 0, [sel], held],
                                                     _edit(rng, 0, route, "flip")] + _reread(rng, 0, held) + [_read(rng, 0, "views", not held)])
     # ---- B / C: read one view, copy, edit the copy (B) or the original (C), read both
     for rep in range(3 if big else 1):
@@ -244,7 +246,7 @@ def hist_inputs(tier, rng):
                 if not big and (si + ci + rep) % 2: continue
                 tgt = (si + ci) % 2                      # 1 = edit the copy, 0 = edit the original
                 held = (si + ci) % 3 == 0
-                yield _hist(rng.choice(GEOMS), [["new", "ctor", _rows(rng)], ["touch", 0, [sel], held], ["copy", croute, 0],
+                yield _hist(rng.choice(GEOMS_X), [["new", "ctor", _rows(rng)], ["touch", 0, [sel], held], ["copy", croute, 0],
                                                 _edit(rng, tgt, None, "flip")] + _reread(rng, 1, False) + _reread(rng, 0, held))
     # ---- D: a DERIVED Mask2D is itself observed, edited and observed again, and so is its source
     for rep in range(3 if big else 1):
@@ -252,11 +254,19 @@ def hist_inputs(tier, rng):
             for si, sel in enumerate(SEL_NAMES):
                 if not big and (si + di_ + rep) % 4: continue
                 k = rng.choice(HKS[:5])
-                yield _hist(rng.choice(GEOMS), [["new", "ctor", pad(rand_mask(rng, rng.randint(1, 4), rng.randint(1, 4)), k[0] // 2 + rng.randint(0, 1), k[1] // 2 + rng.randint(0, 1))],
+                yield _hist(rng.choice(GEOMS_X), [["new", "ctor", pad(rand_mask(rng, rng.randint(1, 4), rng.randint(1, 4)), k[0] // 2 + rng.randint(0, 1), k[1] // 2 + rng.randint(0, 1))],
                                                 _read(rng, 0, "views"), ["read", 0, "blur", False, None, {"k": k}],
                                                 ["derive", dname, droute, 0, k[0], k[1]], _read(rng, 1, "views"), ["touch", 1, [sel], si % 2 == 0],
                                                 _edit(rng, 1, None, "flip")] + _reread(rng, 1, si % 2 == 0, k) + [_read(rng, 0, "views"),
                                                 _edit(rng, 0, None, "flip")] + _reread(rng, 0, None, k) + [_read(rng, 1, "views")])
+    # ---- D2: a Mask2D obtained from another one by with_new_array / resized_from (new contents, same class instance
+    #      machinery) after the source's views were read
+    for rep in range(3 if big else 1):
+        for si, sel in enumerate(SEL_NAMES):
+            if not big and si % 2 != rep % 2: continue
+            step = ["new", "with_new_array", _rows(rng)] if si % 3 else ["resized", 0, rng.randint(-1, 2), rng.randint(-1, 2)]
+            yield _hist(rng.choice(GEOMS_X), [["new", "ctor", _rows(rng)], ["touch", 0, [sel], False], _read(rng, 0, "views", si % 4 == 0), step,
+                                              _read(rng, 1, "views", False), _edit(rng, 1, None, "flip")] + _reread(rng, 1) + [_read(rng, 0, "views", si % 4 == 0)])
     # ---- G: two edits that restore the number of unmasked pixels (and the shape): one pixel masked, another unmasked
     for rep in range(4 if big else 1):
         for si, sel in enumerate(SEL_NAMES):
@@ -268,7 +278,7 @@ def hist_inputs(tier, rng):
                 if not ones or not zeros: rows = ["110", "011", "111"]; ones, zeros = [[0, 0]], [[0, 2]]
                 a, b = rng.choice(ones), rng.choice(zeros)
                 if rng.random() < 0.5: a, b = b, a
-                yield _hist(rng.choice(GEOMS), [["new", "ctor", rows], ["touch", 0, [sel], held], _read(rng, 0, "views", held),
+                yield _hist(rng.choice(GEOMS_X), [["new", "ctor", rows], ["touch", 0, [sel], held], _read(rng, 0, "views", held),
                                                 ["edit", rng.choice(EDIT_ROUTES[:7]), 0, [a], "flip", 0], ["edit", rng.choice(EDIT_ROUTES[:7]), 0, [b], "flip", 0]]
                             + _reread(rng, 0, held))
     # ---- E: every mask of a small shape, every cell flipped after a full read
@@ -307,7 +317,7 @@ def hist_inputs(tier, rng):
             elif r < 0.97: steps.append(["new", rng.choice(NEW_ROUTES), _rows(rng, big)])
             else: steps.append(["resized", o, rng.randint(-1, 2), rng.randint(-1, 2)])
         steps += _reread(rng, rng.randrange(8), None, hk)
-        yield _hist(rng.choice(GEOMS), steps)
+        yield _hist(rng.choice(GEOMS_X), steps)
 
 # ----------------------------------------------------------------------------- implementation calls
 def _classify(M):
